@@ -110,7 +110,7 @@ def run(ctx):
         ctx.part('s2c', histories=len(scns), disagreements=nbad)
         ctx.cov['exhaustive'] = True
     if ctx.only in (None, 'rel'):
-        n = 14 if quick else 150
+        n = 14 if quick else 600
         items, meta = [], []
         for b in range(n):
             base = maptrace.gen_scenario(rng, max_levels=3, max_leaves=6, min_leaves=2, G=10, vmax=9,
